@@ -72,7 +72,7 @@ func genC16(r *rand.Rand, run int, tier string) *Scenario {
 
 		return sc
 	case 2, 3:
-		return genFOBase(r, foShape{minClients: 2, maxClients: 5, maxKeys: 2, maxOps: 3, sleeps: true, skipRead: true, callerTricks: false})
+		return genFOBase(r, foShape{minClients: 2, maxClients: 5, maxKeys: 2, maxOps: 3, sleeps: true, skipRead: true, faults: true, callerTricks: false})
 	case 4:
 		return genC15(r, 2, tier) // concurrent index workload
 	default:
